@@ -3,7 +3,7 @@ against the model crates bytes (inline fixed-capacity buffers), memchr, tokio::i
 from vlib import kani, core
 
 NOTES = {
- '13': ('Framed::next_item / Stream::poll_next: one poll per harness from a constructed pre-state (K buffered symbolic bytes, symbolic flags under the representation invariant, symbolic first transport answer); induction over polls gives independence of the arrival pattern', 'K + C <= 7 bytes (model CAP = 8); length-prefixed test codec and BytesCodec; LinesCodec framing is C15; 1 KiB / 8 KiB buffer growth is not modelled (virtual capacity only)'),
+ '13': ('Framed::next_item / Stream::poll_next: one poll per harness from a constructed pre-state (K buffered symbolic bytes, symbolic flags under the representation invariant, symbolic first transport answer); induction over polls gives independence of the arrival pattern', 'K + C <= 7 bytes (model CAP = 8); length-prefixed test codec and BytesCodec; LinesCodec framing is C15; the 1 KiB / 8 KiB reserve arithmetic is checked separately (c13_room_before_every_read, `lenonly` buffer: any undecoded length <= 8936, any capacity <= 20000)'),
  '14': ('Framed::{write, flush, close} and the Sink impl: one sink operation per harness from a pre-state with K buffered symbolic bytes, every transport answer symbolic (Pending / Ok(0) / Ok(j) / Err; flush and shutdown Ready or Pending)', 'at most 3 poll_write calls per harness, items of 2 bytes, K <= 3; the 8 KiB high-water mark itself is out of reach of the 8-byte model buffer (only "below HW => ready without I/O" is checked)'),
  '15': ('LinesCodec::{decode, decode_eof, encode} and the round trip, bytes fully symbolic (all 256 values) per total length N, against an independent reference splitter and UTF-8 validator', 'N <= 3 (quick) / 5 (thorough); round trip for two strings of lengths <= 2'),
 }
@@ -16,7 +16,9 @@ def run(rep, tier, seed):
     rep.assumptions += ['exceeding the 8-byte model buffer is kani::assume(false) (stated bound)', 'live heap objects are mem::forgotten at the end of a harness']
     rep.functions.add(NOTES['13'][0]); rep.bounds['stated'] = NOTES['13'][1]
     rep.need_witness(*['C%s:' % '13' + w for w in ['frame completed by the chunk', 'frame after eof', 'buffered frame']])
-    kani.check(rep, 'C13', 'codec', lambda h: h.startswith('c13' + '_'), () if q else ('thorough',), wall=900 if q else 2400)
+    kani.check(rep, 'C13', 'codec', lambda h: h.startswith('c13' + '_') and 'room' not in h, () if q else ('thorough',), wall=900 if q else 2400)
+    # the reserve arithmetic around the real marks LW = 1 KiB / HW = 8 KiB: same framed.rs against the `lenonly` model buffer
+    kani.check(rep, 'C13', 'codec', lambda h: h.startswith('c13_room_'), ('lenonly',), wall=900)
 
 
 def replay(path): return kani.replay_file(path)
